@@ -24,19 +24,21 @@ import (
 
 // Case is one evaluated input; it is what a replay file stores.
 type Case struct {
-	Kind      string   `json:"kind"`                 // drbg | pure | vals | valtx | members | signing | seed
-	Fn        string   `json:"fn,omitempty"`         // pure: one | some | max
-	Weights   []uint64 `json:"weights,omitempty"`    // pure: weight vector
-	Tokens    []string `json:"tokens,omitempty"`     // vals/valtx: validator tokens (decimal), slot order
-	Flags     string   `json:"flags,omitempty"`      // vals: E/I/U/X per validator; members: A/I/N/Z; signing: a/A/I/N
-	Cnt       int      `json:"cnt,omitempty"`        // ask count / threshold / cnt
-	Tries     int      `json:"tries,omitempty"`      // sampling_try_count
-	Seed      string   `json:"seed,omitempty"`       // rolling seed (hex)
-	Nonce     string   `json:"nonce,omitempty"`      // drbg: nonce (hex)
-	ID        uint64   `json:"id,omitempty"`         // request id / signing id
-	Attempt   uint64   `json:"attempt,omitempty"`    // members: attempt number in the nonce
-	ChainID   string   `json:"chain_id,omitempty"`   // personalization string
-	HashHex   string   `json:"hash,omitempty"`       // seed: block hash
+	Kind      string   `json:"kind"`               // drbg | pure | vals | valtx | members | signing | seed
+	Fn        string   `json:"fn,omitempty"`       // pure: one | some | max
+	Weights   []uint64 `json:"weights,omitempty"`  // pure: weight vector
+	Tokens    []string `json:"tokens,omitempty"`   // vals/valtx: validator tokens (decimal), slot order
+	Flags     string   `json:"flags,omitempty"`    // vals: E/I/U/X per validator; members: A/I/N/Z; signing: a/A/I/N
+	Cnt       int      `json:"cnt,omitempty"`      // ask count / threshold / cnt
+	Tries     int      `json:"tries,omitempty"`    // sampling_try_count
+	Seed      string   `json:"seed,omitempty"`     // rolling seed (hex)
+	Nonce     string   `json:"nonce,omitempty"`    // drbg: nonce (hex)
+	ID        uint64   `json:"id,omitempty"`       // request id / signing id
+	Attempt   uint64   `json:"attempt,omitempty"`  // members: attempt number in the nonce
+	ChainID   string   `json:"chain_id,omitempty"` // personalization string
+	HashHex   string   `json:"hash,omitempty"`     // seed: block hash
+	Param     string   `json:"param,omitempty"`    // params / tssparams: parameter set to Value through MsgUpdateParams first
+	Value     uint64   `json:"value,omitempty"`
 	PrevCount uint64   `json:"prev_count,omitempty"` // valtx / signing: request / signing count before the call
 }
 
@@ -213,6 +215,10 @@ func evalCase(e func() *env, c Case) Res {
 		return evalSigning(e(), c)
 	case "seed":
 		return evalSeed(e(), c)
+	case "params":
+		return evalParams(e(), c)
+	case "tssparams":
+		return evalTSSParams(e(), c)
 	case "hist": // slot / delta / extra are carried in Attempt / ID / HashHex
 		extra, _ := strconv.Atoi(c.HashHex)
 		return evalHist(e(), c, int(c.Attempt), int64(c.ID), extra)
@@ -239,13 +245,13 @@ func run(r *engine.Run) {
 			"MsgRequestData through the router: 3 and 4 validators, all 4^n state vectors, ask 1..n, 2 seeds, request ids {1,2} and {42,43}. " +
 			"tss GetRandomMembers: groups of 1..5 members, every state vector {available, inactive, queue-used-up, inactive+no-queue}^n, threshold 1..n, 3 seeds x 3 signing ids x 2 attempts (+1 other chain id). " +
 			"RequestSigning + retry (InitiateNewSigningRound): 1..4 members x {1 nonce, 2 nonces, inactive, queue-used-up}^n, threshold 1..n, 2 seeds, signing ids {1, 2^64-1}. " +
-			"rolling seed BeginBlocker: 3 seeds x (empty hash + 256 first bytes x 3 hash lengths)"
+			"rolling seed BeginBlocker: 3 seeds x (empty hash + 256 first bytes x 3 hash lengths). parameter corners: {sampling_try_count, max_ask_count, per_validator_request_gas} x {0,1,2,2^64-1} via MsgUpdateParams, then 4 validators x {E,I,U,X}^4 x ask 1..4 x 2 (seed,id) through GetRandomValidators and MsgRequestData; tss {max_signing_attempt, signing_period, max_de_size} x {0,1,2,2^64-1}, then RequestSigning + retry on 1..3 members"
 	} else {
 		r.Bound = "THOROUGH. pure samplers: every ordered weight vector over {1,2,3,10^6,2^62,2^63} of length 1..6 and over {1,2,3,7,10^6,2^62,2^63-1,2^63} of length 1..5, " +
 			"18 hand-chosen vectors at/around a total of 2^64; cnt 1..n, tries {1,2,3,10}, 3 seeds x 3 ids. DRBG stream as quick. " +
 			"oracle keeper: 4 validators {E,I,U,X}^4 x {1,3,10^6,1.5*10^6,2^62,2^63}^4, tries {1,3,10} x 2 seeds x 2 ids (+ second chain id); 5 validators {E,I,U,X}^5 x {3,10^6,2^63}^5, tries {1,3}; " +
 			"6 validators {E,I}^6 x {3,10^6,1.5*10^6,2^62}^6; near-2^64 as quick. MsgRequestData: additionally 4 equal-stake validators and 5 validators {E,I,U}^5. " +
-			"tss GetRandomMembers: groups of 1..6 members; RequestSigning + retry: 1..5 members. rolling seed as quick"
+			"tss GetRandomMembers: groups of 1..6 members; RequestSigning + retry: 1..5 members. rolling seed as quick. parameter corners: {sampling_try_count, max_ask_count, per_validator_request_gas} x {0,1,2,2^64-1} via MsgUpdateParams, then 4 validators x {E,I,U,X}^4 x ask 1..4 x 2 (seed,id) through GetRandomValidators and MsgRequestData; tss {max_signing_attempt, signing_period, max_de_size} x {0,1,2,2^64-1}, then RequestSigning + retry on 1..3 members"
 	}
 	r.Rule = "one evaluation = one call of a real function/handler on one enumerated tuple compared with the reference; tuples are enumerated by " +
 		"odometer over the stated alphabets (no sampling); an evaluation is non-trivial when the real code returned a committee; " +
@@ -257,7 +263,8 @@ func run(r *engine.Run) {
 		"order of the available members = ascending member id (store order)",
 		"weights are positive; a total weight above 2^64-1 (or a single validator above it) panics by design (safeAdd / Uint64) inside the transaction: recorded as outcome, not a violation",
 		"validator and member states are written directly through the real keepers' setters in a cache context; how those states are reached is the subject of other properties",
-		"zero weights and sampling_try_count = 0 are outside the statement (bonded validators have positive tokens; parameter validation rejects 0)",
+		"zero weights are outside the statement (bonded validators have positive tokens)",
+		"parameter corners: sampling_try_count, max_ask_count, per_validator_request_gas (oracle) and max_signing_attempt, signing_period, max_de_size (tss) are set to {0,1,2,2^64-1} through the real MsgUpdateParams handler; only ACCEPTED values are followed by selection cases, where an error is allowed but a returned committee must satisfy the statement (equality with the specification only for 1 <= try count <= 1000)",
 	}
 	r.Required = []string{
 		"drbg:ok",
@@ -267,6 +274,8 @@ func run(r *engine.Run) {
 		"members:ok", "members:too-few",
 		"signing:attempt1:ok", "signing:attempt2:ok", "signing:attempt1:too-few", "signing:attempt2:too-few",
 		"seed:shifted", "seed:unchanged-empty-hash",
+		"params[sampling_try_count=1]:accepted", "params[sampling_try_count=1]:vals:ok", "params[sampling_try_count=2]:valtx:ok",
+		"params[max_ask_count=2]:accepted", "tssparams[signing_period=1]:accepted", "tssparams[signing_period=1]:signing:attempt1:ok",
 	}
 	d := &driver{r: r, tally: engine.NewTally(), deadline: r.Deadline(6*time.Minute, 40*time.Minute), workers: engine.DefaultWorkers()}
 	d.envs = make([]*env, d.workers)
@@ -290,6 +299,8 @@ func run(r *engine.Run) {
 	d.runValTx(quick)
 	d.runHist()
 	d.runValsNear()
+	d.runParams()
+	d.runTSSParams()
 	if quick {
 		d.pureUnits("pure:n=5:reduced-alphabet", vectors([]uint64{1, 3, 1_000_000, w62, w63}, 5))
 		d.runValsQuick()
